@@ -205,7 +205,8 @@ def run_unit(name, workdir, vacuity=False, mutate=None, tag=''):
             for l in range(s['line_start'], s['line_end'] + 1):
                 if l - 1 < len(lines):
                     m = OB_RE.search(lines[l - 1])
-                    if m and (s.get('label') or s.get('is_primary')) and s['line_start'] == s['line_end']:
+                    # a clause that spans several lines carries its marker on its first line
+                    if m and (s.get('label') or s.get('is_primary')) and l == s['line_start']:
                         ob = ob or m.group(1)
         kind = low
         if 'precondition' in low:
